@@ -253,24 +253,46 @@ def vm_crosscheck(family, cases, observed):
     os.makedirs(d, exist_ok=True)
     def lit(s):
         return '[' + '; '.join(str(ord(ch)) for ch in s) + ']'
-    src = ['Require Import Ink.Lib.Str.', 'Require Import NArith List.', 'Import ListNotations.', 'Require Import Ink.Gen.Tables Ink.Driver.Run.', 'Open Scope N_scope.',
-           'Definition fam : str := %s.' % lit(family),
-           'Definition inputs : list str := [%s].' % ';\n  '.join(lit(c) for c in cases),
-           'Eval vm_compute in (map (fun l => run tables fam l) inputs).']
-    path = os.path.join(d, 'cases_%s.v' % re.sub(r'\W', '_', family))
-    open(path, 'w').write('\n'.join(src) + '\n')
-    rc, out = sh(['coqc', '-noglob', '-Q', COQ, 'Ink', path], cwd=d, timeout=3000)
-    if rc != 0:
-        return 0, ['coqc failed: ' + out[-500:]]
-    m = re.search(r'=\s*(\[.*\])\s*:\s*list', out, re.S)
-    if not m:
-        return 0, ['cannot parse coqc output']
-    body = m.group(1).replace('\n', ' ')
-    body = re.sub(r'%N', '', body)
     import ast
-    vals = ast.literal_eval(body.replace(';', ','))
-    got = [''.join(chr(x) for x in v) for v in vals]
-    bad = [(c, g, o) for c, g, o in zip(cases, got, observed) if g != o]
+    def batch(cs, tag):
+        src = ['Require Import Ink.Lib.Str.', 'Require Import NArith List.', 'Import ListNotations.', 'Require Import Ink.Gen.Tables Ink.Driver.Run.', 'Open Scope N_scope.',
+               'Definition fam : str := %s.' % lit(family),
+               'Definition inputs : list str := [%s].' % ';\n  '.join(lit(c) for c in cs),
+               'Eval vm_compute in (map (fun l => run tables fam l) inputs).']
+        path = os.path.join(d, 'cases_%s_%s.v' % (re.sub(r'\W', '_', family), tag))
+        open(path, 'w').write('\n'.join(src) + '\n')
+        try:
+            rc, out = sh('ulimit -s unlimited 2>/dev/null; exec coqc -noglob -Q %s Ink %s' % (COQ, path), cwd=d, timeout=1500)
+        except subprocess.TimeoutExpired:
+            rc, out = -1, 'timeout'
+        if rc != 0:
+            if 'Error' in out and 'Stack overflow' not in out and 'Out of memory' not in out:
+                return 'error', out[-500:]
+            return 'resource', out[-200:]       # killed / stack / memory / time: not a disagreement
+        m = re.search(r'=\s*(\[.*\])\s*:\s*list', out, re.S)
+        if not m:
+            return 'error', 'cannot parse coqc output'
+        body = re.sub(r'%N', '', m.group(1).replace('\n', ' '))
+        vals = ast.literal_eval(body.replace(';', ','))
+        return 'ok', [''.join(chr(x) for x in v) for v in vals]
+    got = {}
+    skipped = 0
+    work = [(list(range(len(cases))), '0')]
+    while work:
+        idx, tag = work.pop()
+        st, r = batch([cases[i] for i in idx], tag)
+        if st == 'ok':
+            for i, g in zip(idx, r): got[i] = g
+        elif st == 'error':
+            return 0, ['coqc failed: ' + r]
+        elif len(idx) > 1:
+            h = len(idx) // 2
+            work.append((idx[:h], tag + 'a')); work.append((idx[h:], tag + 'b'))
+        else:
+            skipped += 1                        # this one case exhausts the in-Coq evaluator's resources
+    if skipped:
+        log('vm cross-check: %d case(s) of family %s not evaluated inside Coq (resources)' % (skipped, family))
+    bad = [(cases[i], g, observed[i]) for i, g in sorted(got.items()) if g != observed[i]]
     return len(got), bad
 
 def coqchk(pid):
